@@ -135,9 +135,21 @@ Definition item_matches (e : entrance) (it : item) (d : dobs) : bool :=
   | None => false
   end.
 
+(* Every submitted item reaches the subscribers -- unless a LATER item of the same request is resolved
+   to the same validator: the handlers collect a request into sets keyed by the validator's public
+   key (per slot, or per slot and subcommittee), so a later entry may replace an earlier one. *)
+Definition same_who (a b : item) : bool :=
+  match i_who a, i_who b with Some x, Some y => N.eqb x y | _, _ => false end.
+
+Fixpoint all_delivered (e : entrance) (call : list dobs) (items : list item) : bool :=
+  match items with
+  | [] => true
+  | it :: r => (existsb (item_matches e it) call || existsb (same_who it) r) && all_delivered e call r
+  end.
+
 Definition delivered_matches (e : entrance) (items : list item) (call : list dobs) : bool :=
   forallb (fun d => d_valid d && existsb (fun it => item_matches e it d) items) call
-  && forallb (fun it => existsb (item_matches e it) call) items.
+  && all_delivered e call items.
 
 Definition first_err (os : list (option gerr)) : option gerr :=
   hd None (filter (fun o => match o with Some _ => true | None => false end) os).
